@@ -288,6 +288,34 @@ func c14SliceJudge(t []rune, i, j int, g c14Got, cs func() json.RawMessage) *mc.
 		}
 		return nil
 	}
+	// outside 1 <= i <= j <= 长度 the convention (negative = from the end, reversed = empty, ...)
+	// is not documented, but "counts characters consistently" means it is the SAME convention
+	// for every text: what 取样 does to an ASCII text of the same length, position for position
+	twin := []rune("abcdefghijklmnopqrstuvwxyz")[:len(t)]
+	tw := c14Direct(func() (r.Element, error) {
+		return value.NewString(string(twin)).ExecMethod("取样", []r.Element{value.NewNumber(float64(i)), value.NewNumber(float64(j))})
+	})
+	if tws, isStr := tw.elem.(*value.String); tw.panic == "" && tw.err == "" && isStr && tws != nil {
+		sub := []rune(tws.GetValue())
+		a := 0
+		if len(sub) > 0 {
+			a = strings.IndexRune(string(twin), sub[0])
+		}
+		if a >= 0 && a+len(sub) <= len(t) && string(twin[a:a+len(sub)]) == string(sub) {
+			want := string(t[a : a+len(sub)])
+			str, ok := g.elem.(*value.String)
+			if g.err != "" || !ok || str == nil || str.GetValue() != want {
+				obs := g.err
+				if obs == "" {
+					obs = c14Show(g.elem)
+				}
+				return &mc.Failure{Kind: "mismatch", Bucket: "slice:same-positions-as-ascii", Case: cs(), Expected: fmt.Sprintf("%q: the characters at the positions that 取样：%d、%d selects in an ASCII text of the same length (%q of %q)", want, i, j, string(sub), string(twin)), Observed: obs}
+			}
+			return nil
+		}
+	} else if tw.panic == "" && tw.err != "" && g.err == "" {
+		return &mc.Failure{Kind: "mismatch", Bucket: "slice:same-positions-as-ascii", Case: cs(), Expected: "an error, as for an ASCII text of the same length", Observed: c14Show(g.elem)}
+	}
 	if g.err != "" {
 		return nil
 	}
@@ -1242,7 +1270,7 @@ func init() {
 			"Enumerations are rank/unrank (every case distinct). Non-trivial: (1) the text has a multi-byte character, (2) the template contains a brace, (3) the double is finite.",
 		Assumptions: []string{
 			"a character is a Unicode code point (长度 counts code points; the combining mark U+0301 is a character of its own)",
-			"取样 outside 1 <= i <= j <= 长度 (zero, negative, reversed, beyond the end) is not documented: only 'an error, or a contiguous run of whole characters of the text' is required",
+			"取样 outside 1 <= i <= j <= 长度 (zero, negative, reversed, beyond the end) is not documented: required is 'an error, or a contiguous run of whole characters of the text', and that it selects the same positions (or fails alike) as for an ASCII text of the same length (the counting is the same for every text)",
 			"分隔: pieces are whole-character runs, none contains the separator, and joining them with the separator gives the text back; which occurrences are chosen when separators overlap is not asserted",
 			"malformed template (from the task statement): a { inside a placeholder, a stray }, an unclosed {, a placeholder body that is neither empty nor #[+][.N][E|%]; which of several errors is reported is not compared, only that an error is reported",
 			"documented directives are exactly # #.N #+ #.N% #.NE (N a decimal integer, leading zeros allowed); their expected text is Python's %.6g / %.Nf / %+.6g / %.Nf of x*100 + '%' / %.NE, which agrees with every example of manual chapter 6",
